@@ -425,7 +425,10 @@ def _merge(agg, val, r):
     agg['digests'].update(val.get('nontrivial_digests', ()))
     for k, n in val.get('stats', {}).items():
         if isinstance(n, (int, float)):
-            agg['stats'][k] = agg['stats'].get(k, 0) + n
+            if k.startswith('max.'):
+                agg['stats'][k] = max(agg['stats'].get(k, 0), n)
+            else:
+                agg['stats'][k] = agg['stats'].get(k, 0) + n
     for item in val.get('violations', ()):
         item['unit'] = r
         agg['violations'].append(item)
